@@ -533,8 +533,9 @@ func postprocessParsed(lookup objLookup) {
 	// may reference up to 11 $crypto_ipsec_ikev2_ipsec-proposal
 	setTransRef := func(prefix, part string) {
 		cmdPart := " set " + part + " "
-		for _, l := range lookup[prefix] {
-			for _, c := range l {
+		m := lookup[prefix]
+		for _, name := range slices.Sorted(maps.Keys(m)) {
+			for _, c := range m[name] {
 				if def, names, found := strings.Cut(c.parsed, cmdPart); found {
 					nl := strings.Fields(names)
 					if len(nl) > 11 {
